@@ -26,6 +26,11 @@ def fsx_stream(run, n, label='doer-model'):
         run.cov['traces_validated_against_impl'] += 1
     run.cov['disagreements_checked'] += len(cases)
     for c in cases:
+        msg = fsx.oracle_no_stamped_garbage(c)
+        if msg:
+            run.violation(dict(kind='oracle-failed-on-implementation', layer='L3', oracle='a file that carries the time sent with a transfer holds the bytes of the whole transfer', message=msg, **fsx.describe(c)))
+            break
+    for c in cases:
         msg = fsx.oracle_received_bytes(c)
         if msg:
             run.violation(dict(kind='oracle-failed-on-implementation', layer='L3', oracle='a completely received file holds the concatenation of its parts and the time sent with the last', message=msg, **fsx.describe(c)))
